@@ -790,7 +790,9 @@ func Expr(str string) (node ast.Node, err error) {
 	var t = &tree{lex: lexExpr("", str)}
 	defer verifParseReturn(t.lex, &err)
 	defer t.recover(&err)
-	return t.parseExpr(0), err
+	node = t.parseExpr(0)
+	t.lex.drain() // tokens may follow the expression: let the lexer goroutine finish
+	return node, err
 }
 
 // boolAttr returns a boolean value from the given attribute map.
